@@ -1,5 +1,6 @@
 import PybropsModel.Drv.C01
 import PybropsModel.Drv.C02
+import PybropsModel.Drv.C03
 import PybropsModel.Drv.C04
 import PybropsModel.Drv.C05
 import PybropsModel.Drv.C07
@@ -10,6 +11,8 @@ import PybropsModel.Drv.C11
 import PybropsModel.Drv.C13
 import PybropsModel.Drv.C14
 import PybropsModel.Drv.C15
+import PybropsModel.Drv.C16
+import PybropsModel.Drv.C17
 import PybropsModel.Drv.C18
 import PybropsModel.Drv.C19
 import PybropsModel.Drv.C20
@@ -18,6 +21,7 @@ namespace Drv
 def allOps : List (String × J.Op) := List.flatten [
   Drv.C01.ops,
   Drv.C02.ops,
+  Drv.C03.ops,
   Drv.C04.ops,
   Drv.C05.ops,
   Drv.C07.ops,
@@ -28,6 +32,8 @@ def allOps : List (String × J.Op) := List.flatten [
   Drv.C13.ops,
   Drv.C14.ops,
   Drv.C15.ops,
+  Drv.C16.ops,
+  Drv.C17.ops,
   Drv.C18.ops,
   Drv.C19.ops,
   Drv.C20.ops
